@@ -106,7 +106,15 @@ def main(tier, seed, replay=None):
     rnd = random.Random(seed)
     d = vlib.scratch("C08")
     nspecs = 120 if tier == "quick" else 600
-    specs = [gen_ops(rnd) for _ in range(nspecs)]
+    # deterministic families: an id that, once the common affix of the SELECTED subset is trimmed, equals the
+    # untrimmed id of another selected operation; several methods on one path with the first one rejected
+    fixed = [
+        [("/get-started", "get", "get_get_started", False), ("/started", "get", "get_started", False), ("/feedback", "post", "post_feedback", False)],
+        [("/a/b", "get", "list_list_items", False), ("/pets", "get", "list_items", False), ("/users", "put", "replace_thing", False)],
+        [("/users", "get", "list_users", False), ("/users", "post", "create_user", False), ("/users/{id}", "get", "get_user", False),
+         ("/users/{id}", "put", "replace_user", False), ("/users/{id}", "delete", "remove_user", False), ("/pets", "get", "health", False)],
+    ]
+    specs = fixed + [gen_ops(rnd) for _ in range(nspecs)]
     if replay:
         specs = [[tuple(o) for o in json.load(open(replay))["ops"]]]
     dis, viol, known_hits = [], [], set()
